@@ -93,10 +93,7 @@ namespace CC.TreeSet
 open CC.Spec CC.Spec.OrdMap
 variable {cmp : Nat → Nat → Int}
 
-/-- the results of the ideal set as the C API hands them back (`apiOut` call by call) -/
-def apiOuts : List OrdSet.Op → List Out → List Out
-  | op :: ops, o :: os => OrdSet.apiOut op o :: apiOuts ops os
-  | _, _ => []
+abbrev apiOuts := OrdSet.apiOuts
 
 /-- **all histories of set calls**, full results (status, out-value, callback sequence) -/
 theorem run_ok (ho : TotalOrder cmp) (ops : List (OrdSet.Op × List Bool)) {s : TreeSet} (h : s.Inv cmp)
@@ -123,7 +120,7 @@ theorem run_ok (ho : TotalOrder cmp) (ops : List (OrdSet.Op × List Bool)) {s : 
     obtain ⟨a, b, c, d, e, f, g, i⟩ := ih k.inv (s.step cmp op (m.begin sched)).2.2.1 k.owns
     rw [k.abs, TreeTable.begin_allocT, k.triple] at a b
     rw [k.triple] at e f
-    simp only [TreeSet.run, OrdSet.run, List.map_cons, apiOuts]
+    simp only [TreeSet.run, OrdSet.run, List.map_cons, apiOuts, OrdSet.apiOuts]
     refine ⟨by rw [a, k.out, TreeTable.begin_allocT], b, c, by rw [d, k.nofault]; rfl, by omega, f, g, ?_⟩
     intro p hp
     rcases List.mem_cons.1 hp with rfl | hp
@@ -241,4 +238,121 @@ theorem destroy_spec {s : TreeSet} (h : s.Inv cmp) (m : Mem) (hm : Owns s m) :
   unfold TreeSet.destroy
   rw [b.1, b.2]
   exact ⟨by omega, a.2⟩
+end CC.TreeSet
+
+/-! ### comparator budget of sessions; sessions of a set -/
+namespace CC.TreeTable
+open CC.Spec CC.Spec.OrdMap
+variable {cmp : Nat → Nat → Int}
+
+/-- the comparator budget holds for every table call of a session -/
+theorem session_counts_ok (ho : TotalOrder cmp) (segs : List Segment) {t : TreeTable} (h : t.Inv cmp)
+    (m : Mem) (hm : Owns t m) :
+    ∀ p ∈ t.sessionCounts cmp segs m, p.2 ≤ 2 * Nat.log2 (p.1 + 1) + 2 := by
+  induction segs generalizing t m with
+  | nil => intro p hp; simp [sessionCounts] at hp
+  | cons seg rest ih =>
+    cases seg with
+    | calls ops =>
+      obtain ⟨_, _, c, _, _, _, g, i⟩ := run_ok ho ops h m hm
+      intro p hp
+      simp only [sessionCounts, List.mem_append] at hp
+      rcases hp with hp | hp
+      · exact i p hp
+      · exact ih c _ g p hp
+    | iterate prog =>
+      obtain ⟨_, _, c, _, _, _, _⟩ := iterRun_sim ho prog h (iterInit_rel t) m hm
+      have g := iterRun_owns ho prog h (iterInit_rel t) m hm
+      intro p hp
+      simp only [sessionCounts] at hp
+      exact ih c _ g p hp
+end CC.TreeTable
+
+namespace CC.Spec.OrdMap
+/-- an ideal iteration only erases entries -/
+theorem Cursor.run_sublist (c : Cursor) (f : OrdMap) (prog : List IterOp) : (c.run f prog).2.2.Sublist f := by
+  induction prog generalizing c f with
+  | nil => exact List.Sublist.refl f
+  | cons op rest ih =>
+    simp only [Cursor.run]
+    refine (ih _ _).trans ?_
+    cases op with
+    | next => exact List.Sublist.refl f
+    | remove =>
+      simp only [Cursor.step, Cursor.remove]
+      cases c.last with
+      | none => exact List.Sublist.refl f
+      | some k => exact List.filter_sublist
+end CC.Spec.OrdMap
+
+namespace CC.TreeSet
+open CC.Spec CC.Spec.OrdMap
+variable {cmp : Nat → Nat → Int}
+
+theorem owns_table {s : TreeSet} (h : s.Inv cmp) {m : Mem} (hm : TreeSet.Owns s m) : TreeTable.Owns s.t m := by
+  unfold TreeSet.Owns at hm; unfold TreeTable.Owns; rw [h.2.2]; omega
+
+/-- **set iterator programs**: statuses and yielded elements of the ideal cursor, ideal final content, the
+*set* invariant (table invariant, all values the dummy, one triple), fault-freedom inside the contract,
+ledger balance and ledger consistency — everything needed to go on with set calls -/
+theorem iterRun_ok (ho : TotalOrder cmp) (prog : List IterOp) {s : TreeSet} (h : s.Inv cmp) (m : Mem)
+    (hm : TreeTable.Owns s.t m) :
+    (s.iterRun cmp s.iterInit prog m).1 =
+      ((Cursor.init s.t.abs).run s.t.abs prog).1.map (fun o => { st := o.st, val := o.val }) ∧
+    (s.iterRun cmp s.iterInit prog m).2.1.t.abs = ((Cursor.init s.t.abs).run s.t.abs prog).2.2 ∧
+    (s.iterRun cmp s.iterInit prog m).2.1.Inv cmp ∧
+    (TreeTable.IterValid cmp s.t s.iterInit prog m → (s.iterRun cmp s.iterInit prog m).2.2.2.fault = m.fault) ∧
+    TreeTable.liveOf (s.iterRun cmp s.iterInit prog m).2.2.2 s.triple + s.t.size =
+      TreeTable.liveOf m s.triple + (s.iterRun cmp s.iterInit prog m).2.1.t.size ∧
+    (s.iterRun cmp s.iterInit prog m).2.1.triple = s.triple ∧
+    TreeTable.Owns (s.iterRun cmp s.iterInit prog m).2.1.t (s.iterRun cmp s.iterInit prog m).2.2.2 := by
+  obtain ⟨a, b, c, _, d, e, f⟩ := TreeTable.iterRun_sim ho prog h.1 (TreeTable.iterInit_rel s.t) m hm
+  have g := TreeTable.iterRun_owns ho prog h.1 (TreeTable.iterInit_rel s.t) m hm
+  obtain ⟨e1, e2, e3, e4⟩ := iterRun_eq_table (cmp := cmp) prog s s.iterInit m
+  have e5 : (s.iterRun cmp s.iterInit prog m).2.2.2 = (s.t.iterRun cmp s.t.iterInit prog m).2.2.2 :=
+    congrArg Prod.snd e4
+  have e2' : (s.iterRun cmp s.iterInit prog m).2.1.t = (s.t.iterRun cmp s.t.iterInit prog m).2.1 := e2
+  refine ⟨?_, ?_, ⟨?_, ?_, ?_⟩, ?_, ?_, e3, ?_⟩
+  · rw [e1]; show List.map _ (s.t.iterRun cmp s.t.iterInit prog m).1 = _; rw [a]
+  · rw [e2']; exact b
+  · rw [e2']; exact c
+  · intro x hx
+    rw [e2'] at hx
+    have : x ∈ (s.t.iterRun cmp s.t.iterInit prog m).2.1.abs := hx
+    rw [b] at this
+    exact h.2.1 x ((Cursor.run_sublist _ _ prog).subset this)
+  · rw [e2', e3, f, h.2.2]
+  · rw [e5]; exact d
+  · rw [e5, e2', ← h.2.2]; exact e
+  · rw [e5, e2']; exact g
+
+/-- **sessions of a set**: histories of set calls interleaved with iterator sessions -/
+theorem session_ok (ho : TotalOrder cmp) (segs : List OrdSet.Segment) {s : TreeSet} (h : s.Inv cmp)
+    (m : Mem) (hm : TreeTable.Owns s.t m) :
+    (s.runSession cmp segs m).1 = (OrdSet.runSession cmp (TreeTable.refusedOfT s.triple) s.t.abs segs).1 ∧
+    (s.runSession cmp segs m).2.1.t.abs = (OrdSet.runSession cmp (TreeTable.refusedOfT s.triple) s.t.abs segs).2 ∧
+    (s.runSession cmp segs m).2.1.Inv cmp ∧
+    (SessionValid cmp s segs m → (s.runSession cmp segs m).2.2.fault = m.fault) ∧
+    TreeTable.liveOf (s.runSession cmp segs m).2.2 s.triple + s.t.size =
+      TreeTable.liveOf m s.triple + (s.runSession cmp segs m).2.1.t.size ∧
+    (s.runSession cmp segs m).2.1.triple = s.triple ∧
+    TreeTable.Owns (s.runSession cmp segs m).2.1.t (s.runSession cmp segs m).2.2 := by
+  induction segs generalizing s m with
+  | nil => exact ⟨rfl, rfl, h, fun _ => rfl, rfl, rfl, hm⟩
+  | cons seg rest ih =>
+    cases seg with
+    | calls ops =>
+      obtain ⟨a, b, c, d, e, f, g, _⟩ := run_ok ho ops h m hm
+      obtain ⟨a', b', c', d', e', f', g'⟩ := ih c (s.run cmp ops m).2.2.2 g
+      rw [b, f] at a' b'
+      rw [f] at e' f'
+      simp only [runSession, OrdSet.runSession, SessionValid]
+      exact ⟨by rw [a, a'], b', c', fun hv => by rw [d' hv, d], by omega, f', g'⟩
+    | iterate prog =>
+      obtain ⟨a, b, c, d, e, f, g⟩ := iterRun_ok ho prog h m hm
+      obtain ⟨a', b', c', d', e', f', g'⟩ := ih c (s.iterRun cmp s.iterInit prog m).2.2.2 g
+      rw [b, f] at a' b'
+      rw [f] at e' f'
+      simp only [runSession, OrdSet.runSession, SessionValid]
+      exact ⟨by rw [a, a'], b', c', fun hv => by rw [d' hv.2, d hv.1], by omega, f', g'⟩
 end CC.TreeSet
